@@ -290,6 +290,11 @@ def gen(run):
             yield line("mp4", None, None, d, views_for(ALL, len(d), k), fsmax), stream
         else:
             yield line("mp4", c["max"], c["cum"], d, views_for(CFG, len(d), k), fsmax), stream
+    # many top-level boxes: anything periodic in the box loop (a yield, a flush) would differ between the blocking and the async entry points
+    for nb in (130, 300):
+        fill = b"".join(box(rng.choice([b"free", b"skip"]), b"") for _ in range(nb))
+        for d in (P.F() + m1 + fill + md, P.F() + md + fill + m1):
+            yield line("mp4", None, None, d, views_for(ALL, 64, 8), fsmax), "many-boxes"
     # big moovs: a default configuration that differs between entry points would show here
     for n_entries in (300, 1500):
         big = P.simple_moov([(4, list(range(100, 100 + n_entries)))])
